@@ -402,7 +402,7 @@ package argmapper
 //@ ghost namedSubVal(o Arg) reflect.Value = rvof(captured(o, "argmapper.NamedSubtype$1", "v"))
 
 //@ func newArgBuilder
-//@   ensures  [nil-option-is-an-error] imp(exists(i, int, 0 <= i && i < len(opts) && opts[i] == nil), result0 == nil && result1 != nil)
+//@   ensures  [nil-option-is-an-error] forall(i, int, imp(0 <= i && i < len(opts) && opts[i] == nil, result0 == nil && result1 != nil))
 //@   ensures  [builder] imp(forall(i, int, imp(0 <= i && i < len(opts), opts[i] != nil)), wfB(result0) && fresh(result0) && fresh(result0.named) && fresh(result0.namedSub) && fresh(result0.typed) && fresh(result0.typedSub) && !result0.redefining)
 //@   ensures  [last-named-wins] imp(result0 != nil, forall(i, int, k, string, imp(0 <= i && i < len(opts) && setsNamed(opts[i], k) && forall(j, int, imp(i < j && j < len(opts), !setsNamed(opts[j], k))), has(result0.named, k) && result0.named[k] == namedVal(opts[i]))))
 //@   ensures  [only-supplied-names] imp(result0 != nil, forall(k, string, imp(forall(i, int, imp(0 <= i && i < len(opts), !setsNamed(opts[i], k))), !has(result0.named, k))))
@@ -423,11 +423,11 @@ package argmapper
 
 // ---------------------------------------------------------------- func.go: argBuilder (defaults, then call options)
 //@ func (*Func).argBuilder
-//@   ensures  [nil-option-is-an-error] imp(exists(i, int, 0 <= i && i < len(opts) && opts[i] == nil) || exists(i, int, 0 <= i && i < len(f.callOpts) && f.callOpts[i] == nil), result0 == nil && result1 != nil)
+//@   ensures  [nil-option-is-an-error] forall(i, int, imp(0 <= i && i < len(old(opts)) && old(opts)[i] == nil, result0 == nil && result1 != nil)) && forall(i, int, imp(0 <= i && i < len(f.callOpts) && f.callOpts[i] == nil, result0 == nil && result1 != nil))
 //@   ensures  [builder] imp(result0 != nil, wfB(result0) && fresh(result0) && !result0.redefining)
-//@   ensures  [call-option-wins] imp(result0 != nil, forall(i, int, k, string, imp(0 <= i && i < len(opts) && setsNamed(opts[i], k) && forall(j, int, imp(i < j && j < len(opts), !setsNamed(opts[j], k))), has(result0.named, k) && result0.named[k] == namedVal(opts[i]))))
-//@   ensures  [default-applies-otherwise] imp(result0 != nil, forall(i, int, k, string, imp(0 <= i && i < len(f.callOpts) && setsNamed(f.callOpts[i], k) && forall(j, int, imp(i < j && j < len(f.callOpts), !setsNamed(f.callOpts[j], k))) && forall(j, int, imp(0 <= j && j < len(opts), !setsNamed(opts[j], k))), has(result0.named, k) && result0.named[k] == namedVal(f.callOpts[i]))))
-//@   ensures  [only-supplied-names] imp(result0 != nil, forall(k, string, imp(forall(j, int, imp(0 <= j && j < len(opts), !setsNamed(opts[j], k))) && forall(j, int, imp(0 <= j && j < len(f.callOpts), !setsNamed(f.callOpts[j], k))), !has(result0.named, k))))
-//@   ensures  [call-subtype-option-wins] imp(result0 != nil, forall(i, int, k, string, s, string, imp(0 <= i && i < len(opts) && setsNamedSub(opts[i], k, s) && forall(j, int, imp(i < j && j < len(opts), !setsNamedSub(opts[j], k, s))), has(result0.namedSub[k], s) && result0.namedSub[k][s] == namedSubVal(opts[i]))))
+//@   ensures  [call-option-wins] imp(result0 != nil, forall(i, int, k, string, imp(0 <= i && i < len(old(opts)) && setsNamed(old(opts)[i], k) && forall(j, int, imp(i < j && j < len(old(opts)), !setsNamed(old(opts)[j], k))), has(result0.named, k) && result0.named[k] == namedVal(old(opts)[i]))))
+//@   ensures  [default-applies-otherwise] imp(result0 != nil, forall(i, int, k, string, imp(0 <= i && i < len(f.callOpts) && setsNamed(f.callOpts[i], k) && forall(j, int, imp(i < j && j < len(f.callOpts), !setsNamed(f.callOpts[j], k))) && forall(j, int, imp(0 <= j && j < len(old(opts)), !setsNamed(old(opts)[j], k))), has(result0.named, k) && result0.named[k] == namedVal(f.callOpts[i]))))
+//@   ensures  [only-supplied-names] imp(result0 != nil, forall(k, string, imp(forall(j, int, imp(0 <= j && j < len(old(opts)), !setsNamed(old(opts)[j], k))) && forall(j, int, imp(0 <= j && j < len(f.callOpts), !setsNamed(f.callOpts[j], k))), !has(result0.named, k))))
+//@   ensures  [call-subtype-option-wins] imp(result0 != nil, forall(i, int, k, string, s, string, imp(0 <= i && i < len(old(opts)) && setsNamedSub(old(opts)[i], k, s) && forall(j, int, imp(i < j && j < len(old(opts)), !setsNamedSub(old(opts)[j], k, s))), has(result0.namedSub[k], s) && result0.namedSub[k][s] == namedSubVal(old(opts)[i]))))
 //@   assigns  Func, argBuilder, NamedM, NamedSubM, TypedM, TypedSubM, []*Func, []ConverterGenFunc, ValueSet, Value, valueInternal, []*Value, map[string]*Value, map[reflect.Type]*Value, map[string]string, []string, []interface{}, reflect.StructField, []reflect.StructField, []Arg, rvstore, rvfresh
 //@   modifies nothing
